@@ -1,7 +1,7 @@
 """C07 - a saved ruleset means the same thing to every tool that loads it (DESIGN section 4, C07)."""
 import ast
 
-from ..core import (U, walk_local, calls_in, call_name, const, NOCONST, params, stores_in, single_def, expand,
+from ..core import (TU, U, walk_local, calls_in, call_name, const, NOCONST, params, stores_in, single_def, expand,
                     walk_stmts, arg_for, kwarg, path_conditions, enclosing_stmt_chain, dotted)
 from ..cfg import CFG
 from ..effects import open_encoding, open_mode
@@ -523,14 +523,14 @@ def r3_record_layout(ctx, rule, scope='all'):
                 lvl_src, ng_src = tgt.elts[0].id, tgt.elts[ng_idx].id
             if lvl_src is None:
                 continue
-            txt = U(fn)
+            txt = TU(fn)
             lvl_ok = ('int(%s)' % lvl_src) in txt
             lvl_wrong = ('int(%s)' % ng_src) in txt
             ng_used = ng_src in txt.replace('int(%s)' % ng_src, '')
             verdicts.append((lvl_ok and ng_used and not lvl_wrong, lvl_wrong, lvl_src, ng_src))
         if not verdicts:
             # the split written out at every use (no local holds the fields)
-            txt = U(fn)
+            txt = TU(fn)
             for n_ in walk_local(fn):
                 if isinstance(n_, ast.Call) and isinstance(n_.func, ast.Attribute) and n_.func.attr in ('split', 'partition') and n_.args \
                         and const(n_.args[0]) == '\t':
@@ -638,7 +638,7 @@ def r6_wipe_before_write(ctx, rule):
     if lp:
         l = lp[0]
         k = U(l.target.elts[0]) if isinstance(l.target, ast.Tuple) else None
-        txt = U(l)
+        txt = TU(l)
         good = k is not None and ("os.path.join(%s, str(%s) + '.txt')" % (ps[0], k)) in txt \
             and not any(isinstance(s, (ast.Continue, ast.Break)) for s in walk_stmts(l.body))
     if good:
@@ -792,11 +792,61 @@ def _cp_count(ctx, rule):
     from . import c11
     return c11.r3_cp_count(ctx, rule)
 
+def _shared_rule(mod, name, **kw):
+    def run(ctx, rule):
+        import importlib
+        return getattr(importlib.import_module('sa.props.' + mod), name)(ctx, rule, **kw)
+    return run
+
+
+def r18_scorer_encoding_before_omen(ctx, rule):
+    """The scorer opens IP.level / CP.level in the ruleset's encoding: PCFGPasswordScorer.create_omen_scorer hands self.encoding to
+    OmenScorer, and self.encoding is None until load_grammar has read the ruleset's config - so in password_scorer.main every path
+    to create_omen_scorer passes through load_grammar (seed C07-ca: the OMEN block moved above the grammar load; the level files
+    of a cp1252 / utf-16 ruleset are then decoded with the platform default)."""
+    from ..cfg import CFG
+    q = 'password_scorer.py::main'
+    fn = ctx.fn(q)
+    mod = ctx.repo.modules['password_scorer.py']
+    ctx.stats['functions'].add(q)
+    creates = [c for c in calls_in(fn) if isinstance(c.func, ast.Attribute) and c.func.attr == 'create_omen_scorer']
+    loads = [c for c in calls_in(fn) if call_name(c) == 'load_grammar']
+    if len(creates) != 1 or len(loads) != 1:
+        ctx.unk(rule, q, 'expected one create_omen_scorer and one load_grammar call in main (%d / %d)' % (len(creates), len(loads)))
+        return
+    # the object the grammar is loaded into is the object that creates the OMEN scorer
+    recv = U(creates[0].func.value)
+    if not loads[0].args or U(loads[0].args[0]) != recv:
+        ctx.unk(rule, q, 'load_grammar(%s) and %s.create_omen_scorer do not name the same object' % (U(loads[0].args[0]) if loads[0].args else '', recv))
+        return
+    pfn = ctx.fn('lib_scorer/pcfg_password_scorer.py::PCFGPasswordScorer.create_omen_scorer')
+    uses_enc = any(isinstance(x, ast.Attribute) and x.attr == 'encoding' and U(x.value) == 'self' for x in ast.walk(pfn))
+    if not uses_enc:
+        ctx.unk(rule, q, 'create_omen_scorer no longer reads self.encoding')
+        return
+    from . import c08 as _c08
+    cfg = CFG(fn)
+    cn = cfg.node_of(_c08._stmt_of(mod, creates[0]))
+    ln = cfg.node_of(_c08._stmt_of(mod, loads[0]))
+    ctx.stats['paths'] += 1
+    if cfg.every_path_passes(cfg.entry, cn, {ln}):
+        ctx.ok(rule, q, 'every path to %s.create_omen_scorer passes through load_grammar(%s, ..), which sets the encoding' % (recv, recv))
+    else:
+        ctx.bad(rule, q, 'create_omen_scorer is reached without load_grammar', 'the OMEN scorer is built with encoding None: the level files '
+                'are decoded with the platform default instead of the encoding recorded in the ruleset', None, creates[0], firm=True)
+
+
 def rules(tier):
     return [('C07.R1', r1_separator_inclusion), ('C07.R2', lambda c, r: r2_encoding_agreement(c, r)),
             ('C07.R3', r3_record_layout), ('C07.R5', r5_strip_discipline), ('C07.R6', r6_wipe_before_write),
             ('C07.R7', r7_paths_written), ('C07.R8', c04.r5_grouping_kernel), ('C07.R9', lambda c, r: c03.r1_tag_chain(c, r, scope='disk')),
-            ('C07.R10', r10_loader_complete), ('C07.R11', _renorm), ('C07.R12', _not_aliased), ('C07.R13', r13_recorded_encoding_verbatim), ('C07.R14', _scorer_state_per_object), ('C07.R15', _cp_count)]
+            ('C07.R10', r10_loader_complete), ('C07.R11', _renorm), ('C07.R12', _not_aliased), ('C07.R13', r13_recorded_encoding_verbatim), ('C07.R14', _scorer_state_per_object), ('C07.R15', _cp_count),
+            # C07-cb: the scorer reads LN.level line k as the level of length k+1
+            ('C07.R16', _shared_rule('c11', 'r1_formula_skeleton')),
+            # C10-ca: a config option means the same to writer and reader
+            ('C07.R17', _shared_rule('c10', 'r20_omen_config_keys')),
+            # C07-ca: OMEN scorer initialised before the grammar (and the encoding) is loaded
+            ('C07.R18', _shared_rule('c07', 'r18_scorer_encoding_before_omen'))]
 
 
 META = {
